@@ -355,7 +355,14 @@ class C12(Scenario):
                     sim.yield_point("op")
                     shutil.rmtree(run.real("root"))
                     sim.wait_quiescent()
-                    loose[0] = True  # emitters of deleted roots end by themselves: only the final state is judged from here on
+                    # every watch lies at or below the root: each emitter saw its own directory go, and its own shutdown
+                    # must have released everything without waiting for unschedule()/stop()
+                    fds = run.kshim.open_fds()
+                    helpers = [n for n in lib_alive(sim) if not n.startswith("BaseObserver")]
+                    if started and not loose[0] and (fds or helpers):
+                        res["checks"].append({"what": "cycle-invariant-after-rmroot", "open_fds": fds, "alive": helpers, "expected_running_emitters": 0})
+                        break
+                    loose[0] = True  # which registered watches still have a live emitter is not tracked from here on: only the final state is judged
                 elif k == "mkroot":
                     sim.yield_point("op")
                     for d in sorted(p for p, (kind, _) in run.model.t.items() if kind == "d" and fm.is_under(p, "root")):
